@@ -3,6 +3,7 @@
 From Coq Require Import ZArith NArith List Bool Reals Floats. Import ListNotations.
 From PV Require Import Num NumR model.Optimiser model.OptSpec proofs.OptStruct proofs.OptLoop proofs.FloatFacts proofs.FloatZero proofs.HillClimb proofs.RealFacts.
 From PV Require Import model.Cli gen.GenCli proofs.CliFacts.
+From PV Require Import gen.GenFns proofs.SourceFacts.
 
 Theorem C05_zero_temperature_is_hill_climb :
   forall (fexp : F -> F) (fpow : F -> F -> F) (score : N -> list F -> option F), fexp
@@ -124,4 +125,19 @@ Theorem C05_cli_first_and_last_stage_hill_climb :
     NumF fin) = true.
 Proof. exact cli_first_and_last_stage_hill_climb. Qed.
 Print Assumptions C05_cli_first_and_last_stage_hill_climb.
+
+
+Theorem C05_accept_score_is_source :
+  forall (NN : Num) (fexp : carrier NN -> carrier NN) (thr : carrier NN) (new : option (carrier
+    NN)) (old kt : carrier NN), gen_accept_score NN fexp thr new old kt = (if accept NN fexp thr
+    new old kt then new else None).
+Proof. exact accept_score_is_source. Qed.
+Print Assumptions C05_accept_score_is_source.
+
+Theorem C05_cooling_factor_is_source :
+  forall (NN : Num) (fpow : carrier NN -> carrier NN -> carrier NN) (b : builder NN),
+    gen_cooling_factor NN fpow b (N.min (b_inner NN b) (b_steps NN b)) = factor NN (build NN
+    fpow b).
+Proof. exact cooling_factor_is_source. Qed.
+Print Assumptions C05_cooling_factor_is_source.
 
